@@ -112,7 +112,7 @@ def run(ctx, rep, tier):
         for profile in profiles:
             try:
                 r, panics, n_ok, n_err = explore(B, spec, assume, profile)
-            except Inconclusive as e:
+            except (Inconclusive, ValueError) as e:
                 # a family of the thorough tier only that exceeds the engine's capacity (path explosion) is not decided: it is listed,
                 # not claimed; families of the quick tier and unmodelled constructs stay inconclusive
                 if name not in quick_names and any(k in str(e) for k in ("too many", "step budget exceeded")):
